@@ -272,6 +272,7 @@ fn hist_opts(mark_all: bool) -> GraphOpts {
         decoys: true,
         mark_all,
         sized: true,
+        wide: false,
     }
 }
 
@@ -604,6 +605,19 @@ pub fn gen(prop: &str, seed: u64, index: u64, _tier: Tier) -> Case {
                 }
                 if prng.chance(1, 3) {
                     p.add_file(&format!("{}~", s.path), B::s("editor backup\n"));
+                }
+                if prng.chance(1, 3) {
+                    // the output name with another last extension (page.txt -> page.tmp / page.bak)
+                    let f = crate::names::file_name(&s.out);
+                    let stem = match f.rsplit_once('.') {
+                        Some((st, _)) if !st.is_empty() => st.to_string(),
+                        _ => f.to_string(),
+                    };
+                    let ext = *prng.pick(&["tmp", "bak", "new", "swp"]);
+                    let path = crate::tree::join_rel(crate::tree::parent_rel(&s.out), &format!("{stem}.{ext}")).unwrap();
+                    if p.file(&path).is_none() && !a.gen_all().contains(&path) {
+                        p.add_file(&path, B::s("same stem, other extension\n"));
+                    }
                 }
             }
             let (inputs, recursive) = gen::gen_inputs(&mut prng, &a, true);
